@@ -129,4 +129,67 @@ def breakingB (old new : Prog) : Bool := decide (Breaking old new)
 theorem breakingB_iff (old new : Prog) : breakingB old new = true ↔ Breaking old new := by
   simp [breakingB]
 
+/-! ### The documented compatible edits
+
+`Compatible p p'`: `p'` is `p` after any combination of the edits the documentation calls
+compatible — declarations, fields, arguments, enum values, prefix variables may be renamed
+(names of those are not mentioned below: fields are matched by id, enum values by number,
+prefix pieces up to variable names) and reordered; default values, namespaces and constants may
+change freely (not mentioned); optional or default fields/arguments/exceptions, enum values,
+methods, operations, services, scopes, structs and enums may be added; a service without
+`extends` may get one; optional and default may be exchanged. Every old site keeps its type. -/
+
+def FieldsCompat (ofs nfs : List Field) : Prop :=
+  (∀ f ∈ ofs, ∃ g ∈ nfs, g.id = f.id ∧ g.ty = f.ty ∧ (g.mod = .required ↔ f.mod = .required))
+  ∧ (∀ g ∈ nfs, g.mod = .required → ∃ f ∈ ofs, f.id = g.id)
+
+def MethodCompat (m m' : Method) : Prop :=
+  m'.oneway = m.oneway ∧ m'.ret = m.ret ∧ FieldsCompat m.args m'.args ∧ FieldsCompat m.excs m'.excs
+  ∧ (m.ret = none → m.excs = [] → m'.excs = [])
+
+def Compatible (p p' : Prog) : Prop :=
+  p'.typedefs = p.typedefs
+  ∧ (∀ s ∈ p.scopes, ∃ s' ∈ p'.scopes, s'.name = s.name ∧ prefixAgree s.pfx s'.pfx ∧
+      ∀ o ∈ s.ops, ∃ o' ∈ s'.ops, o'.name = o.name ∧ o'.ty = o.ty)
+  ∧ (∀ e ∈ p.enums, ∀ e' ∈ p'.enums, e'.name = e.name → ∀ v ∈ e.values, ∃ v' ∈ e'.values, v'.num = v.num)
+  ∧ (∀ s ∈ p.structs, ∃ s' ∈ p'.structs, s'.kind = s.kind ∧ s'.name = s.name ∧
+      FieldsCompat s.fields s'.fields)
+  ∧ (∀ s ∈ p.services, ∃ s' ∈ p'.services, s'.name = s.name ∧ (s.ext = none ∨ s'.ext = s.ext) ∧
+      ∀ m ∈ s.methods, ∃ m' ∈ s'.methods, m'.name = m.name ∧ MethodCompat m m')
+
+instance (ofs nfs : List Field) : Decidable (FieldsCompat ofs nfs) := by
+  unfold FieldsCompat; exact inferInstance
+
+instance (m m' : Method) : Decidable (MethodCompat m m') := by
+  unfold MethodCompat; exact inferInstance
+
+instance (p p' : Prog) : Decidable (Compatible p p') := by
+  unfold Compatible; exact inferInstance
+
+/-! ### A change at any depth
+
+A one-hole context of container types; `plug c t` puts `t` into the hole. -/
+
+inductive TyCtx where
+  | hole
+  | list (c : TyCtx)
+  | set (c : TyCtx)
+  | mapKey (c : TyCtx) (v : Ty)
+  | mapVal (k : Ty) (c : TyCtx)
+  deriving Repr
+
+def TyCtx.plug : TyCtx → Ty → Ty
+  | .hole, t => t
+  | .list c, t => .list (c.plug t)
+  | .set c, t => .set (c.plug t)
+  | .mapKey c v, t => .map (c.plug t) v
+  | .mapVal k c, t => .map k (c.plug t)
+
+def TyCtx.depth : TyCtx → Nat
+  | .hole => 0
+  | .list c => c.depth + 1
+  | .set c => c.depth + 1
+  | .mapKey c _ => c.depth + 1
+  | .mapVal _ c => c.depth + 1
+
 end FV.Breaking
